@@ -11,6 +11,9 @@ package main
 //	typednil <Name>                   → "<struct> <message>"    NewXxx(nil) and its ToMesg(nil)
 //	typedmark <Name> <struct> <k> <0|1> → "ok=<0|1> <struct'>"  MarkAsExpandedField(k, flag)
 //	typedseq <Name> <message1> <message2> → "<struct>"          s := NewXxx(&message1); s.Reset(&message2): nothing of message1 survives
+//	typedmsm <Name> <message>         → "<struct> <struct'>"    struct = NewXxx(&message) — a struct as Reset builds it, marks on
+//	                                                            non-eligible numbers included —, struct' = NewXxx(&struct.ToMesg(
+//	                                                            IncludeExpandedFields, standard factory)) (--spec: normDoc struct)
 //
 //	<opts>   ::= "o:nil" | "o:" ("i"|"-") "," ("std"|"zero"|"unk"|"alt"|"nil")
 //	             i = IncludeExpandedFields; factory: std = factory.StandardFactory(), zero = Options.Factory left nil,
@@ -18,7 +21,8 @@ package main
 //	             nil = fields without FieldBase
 //	<struct> ::= "S{" <slot> {";" <slot>} "|" <marks> "|" <fieldlist> "|" <devlist> "}"
 //	             one <slot> per table slot in emission order: a <value> of valcodec.go (fixed arrays as slices; "inv:" is a
-//	             nil slice) or "t:" <seconds since the FIT epoch, signed decimal> for a time.Time (whole seconds, UTC)
+//	             nil slice) or "t:" <seconds since the FIT epoch, signed decimal> for a time.Time (whole seconds, UTC), or
+//	             "rb:" <hex byte 02..fe> for a typedef.Bool field holding something else than 0, 1, 255 (a proto.Value cannot)
 //	<marks>  ::= "-" | <num> {"," <num>}      the numbers k in 0..255 for which IsExpandedField(k)
 //	             <fieldlist>/<devlist>: UnknownFields / DeveloperFields in the syntax of msgcodec.go
 //
@@ -48,6 +52,7 @@ func init() {
 	executors["typedseq"] = execTypedSeq
 	executors["typedmark"] = execTypedMark
 	executors["typednils"] = execTypedNils
+	executors["typedmsm"] = execTypedMSM
 }
 
 // ---------------------------------------------------------------- custom factories
@@ -117,6 +122,8 @@ func printStruct(t *mdTable, s reflect.Value) string {
 			if ns != 0 {
 				fmt.Fprintf(&sb, ".%09d", ns)
 			}
+		} else if sl.kind == "bool" && bitsOf(f) >= 2 && bitsOf(f) != 255 {
+			fmt.Fprintf(&sb, "rb:%02x", bitsOf(f))
 		} else {
 			sb.WriteString(printValue(slotContent(sl, f)))
 		}
@@ -185,6 +192,14 @@ func parseStruct(t *mdTable, txt string) (reflect.Value, bool) {
 				return bad, false
 			}
 			f.Set(reflect.ValueOf(time.Unix(fitEpochU+sec, 0).UTC()))
+			continue
+		}
+		if sl.kind == "bool" && strings.HasPrefix(slots[i], "rb:") {
+			b, err := strconv.ParseUint(slots[i][3:], 16, 8)
+			if err != nil || len(slots[i]) != 5 || b < 2 || b == 255 || strings.ToLower(slots[i]) != slots[i] {
+				return bad, false
+			}
+			setBits(f, b)
 			continue
 		}
 		v, ok := parseValue(slots[i])
@@ -353,6 +368,20 @@ func execTypedID(args []string) string {
 	}
 	m := t.toMesg(s, &mesgdef.Options{Factory: factory.StandardFactory(), IncludeExpandedFields: true})
 	return printStruct(t, t.newStruct(&m))
+}
+
+func execTypedMSM(args []string) string {
+	if len(args) != 2 {
+		return "bad-op"
+	}
+	t := typedTable(args[0])
+	m, ok := parseMessage(args[1])
+	if t == nil || !ok {
+		return "bad-op"
+	}
+	s := t.newStruct(&m)
+	m2 := t.toMesg(s, &mesgdef.Options{Factory: factory.StandardFactory(), IncludeExpandedFields: true})
+	return printStruct(t, s) + " " + printStruct(t, t.newStruct(&m2))
 }
 
 func execTypedNil(args []string) string {
@@ -594,6 +623,10 @@ func genTyped(emit func(string), tier string, rng *Rng) {
 					m := proto.Message{Num: t.num, Fields: []proto.Field{stdField(t, sl.num, slotValue(sl, mode, r), ex)}}
 					em("typedms", typedOptStrings[r.Intn(len(typedOptStrings))], &m)
 					em("typedrt", "o:i,std", &m)
+					if ex && mode != 2 { // the struct Reset builds from a marked field, through ToMesg and back
+						emit(fmt.Sprintf("typedmsm %s %s", t.name, printMessage(&m)))
+						count("msm-slot")
+					}
 					count(fmt.Sprintf("slot-%s-mode%d", sl.kind, mode))
 				}
 			}
@@ -631,6 +664,10 @@ func genTyped(emit func(string), tier string, rng *Rng) {
 			em("typedms", o, &m)
 			em("typedrt", o, &m)
 			count("random-message")
+			if j%3 == 0 {
+				emit(fmt.Sprintf("typedmsm %s %s", t.name, printMessage(&m)))
+				count("msm-random")
+			}
 			if j%5 == 0 { // array values built from nil Go slices
 				m3 := randomMesg()
 				nEmpty := 0
@@ -650,20 +687,47 @@ func genTyped(emit func(string), tier string, rng *Rng) {
 				emit(fmt.Sprintf("typedseq %s %s %s", t.name, printMessage(&m), printMessage(&m2)))
 				count("reset-reuse")
 			}
+			if j%10 == 0 { // … with a message that has NOTHING of what the struct holds: no fields at all, one known field only,
+				// only unknown fields — whatever survives the Reset (marks, unknown / developer fields, a slot) shows
+				empty := proto.Message{Num: t.num}
+				emit(fmt.Sprintf("typedseq %s %s %s", t.name, printMessage(&m), printMessage(&empty)))
+				if len(t.slots) > 0 {
+					sl := &t.slots[r.Intn(len(t.slots))]
+					one := proto.Message{Num: t.num, Fields: []proto.Field{stdField(t, sl.num, slotValue(sl, 0, r), false)}}
+					emit(fmt.Sprintf("typedseq %s %s %s", t.name, printMessage(&m), printMessage(&one)))
+				}
+				unk := proto.Message{Num: t.num, Fields: []proto.Field{unknownField(r.Intn(256), pv[r.Intn(len(pv))], false)}}
+				emit(fmt.Sprintf("typedseq %s %s %s", t.name, printMessage(&m), printMessage(&unk)))
+				count("reset-reuse-bare")
+			}
 		}
-		// more fields than the conversion pool holds (poolsize = the longest message): unknown fields beyond it, known ones after them
-		if t.num%8 == 0 || tier == "thorough" {
-			var m proto.Message
-			m.Num = t.num
-			for k := 0; k < 300; k++ {
-				m.Fields = append(m.Fields, unknownField(k%256, proto.Uint8(uint8(k)), k%7 == 0))
+		// more fields than the conversion pool holds (poolsize = 156 = the longest message): unknown fields up to and beyond it, known
+		// ones after them — for EVERY message type (a guard at the boundary in one generated file is a per-file slip); totals of
+		// exactly poolsize-1, poolsize, poolsize+1 fields and far beyond
+		{
+			sizes := []int{300}
+			if t.num%4 == 0 || tier == "thorough" {
+				sizes = []int{155, 156, 157, 300}
 			}
-			for i := range t.slots {
-				m.Fields = append(m.Fields, stdField(t, t.slots[i].num, slotValue(&t.slots[i], 0, r), false))
+			for _, total := range sizes {
+				var m proto.Message
+				m.Num = t.num
+				nUnknown := total - len(t.slots)
+				if nUnknown < 1 {
+					nUnknown = total
+				}
+				for k := 0; k < nUnknown; k++ {
+					m.Fields = append(m.Fields, unknownField(k%256, proto.Uint8(uint8(k)), k%7 == 0))
+				}
+				for i := range t.slots {
+					m.Fields = append(m.Fields, stdField(t, t.slots[i].num, slotValue(&t.slots[i], 0, r), false))
+				}
+				em("typedms", "o:i,std", &m)
+				if total == 300 {
+					em("typedrt", "o:-,std", &m)
+				}
+				count("beyond-poolsize")
 			}
-			em("typedms", "o:i,std", &m)
-			em("typedrt", "o:-,std", &m)
-			count("beyond-poolsize")
 		}
 		// structs → message → struct
 		for j := 0; j < nStruct; j++ {
@@ -679,7 +743,7 @@ func genTyped(emit func(string), tier string, rng *Rng) {
 				if sl.kind == "time" {
 					sec := int64(uint32(r.U64()))
 					if wild {
-						sec = []int64{-1, -62766662400, 0, 1 << 32, 1<<32 - 1, 1<<32 - 2, 1<<33 + 5, -1 << 35}[r.Intn(8)]
+						sec = []int64{-1, -62766662400, 0, 1 << 32, 1<<32 - 1, 1<<32 - 2, 1<<33 + 5, -1 << 35, 9223372036, 9223372037, 10000000000, 1 << 40}[r.Intn(12)]
 					}
 					f.Set(reflect.ValueOf(time.Unix(fitEpochU+sec, 0).UTC()))
 					continue
@@ -693,6 +757,10 @@ func genTyped(emit func(string), tier string, rng *Rng) {
 					v = proto.Bool(typedef.Bool(r.Intn(2)))
 				}
 				setSlotContent(sl, f, v)
+				if sl.kind == "bool" && wild && r.Intn(2) == 0 {
+					setBits(f, uint64(2+r.Intn(253))) // a typedef.Bool that is neither false, true nor invalid
+					count("struct-bool-other")
+				}
 				if sl.canExpand && r.Intn(3) == 0 {
 					t.markAsExpanded(s, sl.num, true)
 				}
